@@ -189,7 +189,7 @@ impl PersistentStorage {
             }
 //@after "nodes.push("
             proof { idx = idx.push(iter2.pos() - 1); }
-//@before "Ok(nodes)"
+//@atend
         proof {
             let es = db_entries(&self.db, "nodes", prefix_of(tenant_bytes(tenant)));
             assert forall|i: int| 0 <= i < nodes@.len() implies Self::node_has_source(es, tenant, (#[trigger] nodes@[i]).id.0) by {
@@ -226,7 +226,7 @@ impl PersistentStorage {
             }
 //@after "edges.push("
             proof { idx = idx.push(iter2.pos() - 1); }
-//@before "Ok(edges)"
+//@atend
         proof {
             let es = db_entries(&self.db, "edges", prefix_of(tenant_bytes(tenant)));
             assert forall|i: int| 0 <= i < edges@.len() implies Self::edge_has_source(es, tenant, (#[trigger] edges@[i]).id.0) by {
